@@ -4,9 +4,11 @@ import itertools
 from hypothesis import strategies as st
 
 # names with adversarial orderings: lexical != numeric, one name prefix/substring of another
-NAME_POOL = ["v1", "v10", "v2", "v11", "x", "xa", "a_b", "v3", "y1", "w", "v20", "ab"]
+# ... and mixed case (lexical order puts every upper-case letter before the lower-case ones)
+NAME_POOL = ["v1", "v10", "v2", "v11", "x", "xa", "a_b", "v3", "y1", "w", "v20", "ab", "B", "Temp", "X"]
 
-INT_DOMS = [[0], [0, 1], [0, 1, 2], [1, 2, 3], [-1, 0, 1], [2, 5], [0, 1, 2, 3], [3]]
+# [-2, -1, 0]: CPython hashes -1 and -2 to the same value (anything keyed on hash() of domain values must cope)
+INT_DOMS = [[0], [0, 1], [0, 1, 2], [1, 2, 3], [-1, 0, 1], [2, 5], [0, 1, 2, 3], [3], [-2, -1, 0]]
 STR_DOMS = [["R", "G"], ["R", "G", "B"], ["a"], ["on", "off"]]
 
 small_int_costs = st.integers(-50, 50)
